@@ -740,7 +740,10 @@ def hierarchy(rng, depth=3, prefix="H", with_list=False):
 # ---------------------------------------------------------------------------
 class ListGen(TreeGen):
 
-    def list_program(self, allow_randsz=True, allow_obj=True, gates=()):
+    def list_program(self, allow_randsz=True, allow_obj=True, gates=(), extra=()):
+        """extra: "cond_nonrand" - foreach bodies branching on elements of a non-random list
+        (both lists are named in prog["frozen"]: their length must not be edited);
+        "nested_if" - a foreach below an if below a foreach"""
         rng = self.rng
         enums = self.enum_defs(1)
         self.enums = enums
@@ -845,11 +848,46 @@ class ListGen(TreeGen):
                 stmts.append(simple_stmt(rng, pool) if rng.random() < 0.5 else
                              self.stmt(pool, 1, kinds=["expr", "expr", "in"], nest=0))
         if feat_nested:
+            if "nested_if" in extra and own and rng.random() < 0.5:
+                # the inner foreach sits below a condition on a scalar
+                sc = rng.choice(own)
+                inner_fe = feat_nested["body"][0]
+                feat_nested["body"] = [{"t": "if", "c": BIN(rng.choice(["<", ">", "!="]), F(sc["n"]), LIT(rng.randint(0, 2))),
+                                        "then": [inner_fe], "elifs": [], "else": None}]
             stmts.append(feat_nested)
+        frozen = []
+        plain = [l for l in lists if l["k"] == "l" and not l.get("rsz") and l["sz"] >= 1]
+        if "nested_if" in extra and len(plain) >= 1 and rng.random() < 0.4:
+            la = rng.choice(plain)
+            lb = rng.choice(plain)
+            rel = ["<", ">", "<=", "!=", "=="]
+            stmts.append({"t": "foreach", "p": [la["n"]], "it": True, "idx": True, "body": [
+                {"t": "if", "c": BIN(rng.choice(rel), {"t": "f", "p": [la["n"], _loopvar(0, False)]},
+                                     LIT(rng.randint(0, 1))),
+                 "then": [{"t": "foreach", "p": [lb["n"]], "it": True, "idx": True, "body": [
+                     EXPR(BIN(rng.choice(rel), {"t": "f", "p": [lb["n"], _loopvar(0, False)]},
+                              LIT(rng.randint(0, 1))))]}],
+                 "elifs": [], "else": None}]})
+        if "cond_nonrand" in extra and plain and rng.random() < 0.45:
+            lf = rng.choice([l for l in plain if l["r"]] or plain)
+            kl = {"n": "kl", "k": "l", "w": 2, "s": False, "r": False, "rsz": False, "sz": lf["sz"]}
+            fields.append(kl)
+            lists.append(kl)
+            frozen = [lf["n"], "kl"]
+            elem = {"t": "f", "p": [lf["n"], _loopvar(0, False)]}
+            rel = ["<", ">", "<=", "!=", "=="]
+            stmts.append({"t": "foreach", "p": [lf["n"]], "it": True, "idx": True, "body": [
+                {"t": "if", "c": BIN("==", {"t": "f", "p": ["kl", _loopvar(0, False)]}, LIT(rng.randint(0, 2))),
+                 "then": [EXPR(BIN(rng.choice(rel), elem, LIT(rng.randint(0, 1))))], "elifs": [],
+                 "else": [EXPR(BIN(rng.choice(rel), elem, LIT(rng.randint(0, 1))))]}]})
+        self.frozen = frozen
         rng.shuffle(stmts)
         nb = rng.randint(1, 2)
         cut = len(stmts) // nb if nb > 1 else len(stmts)
         cdef["blocks"].append({"n": "c0", "stmts": stmts[:cut]})
         if nb > 1:
             cdef["blocks"].append({"n": "c1", "stmts": stmts[cut:]})
-        return {"enums": enums, "classes": [strip(c) for c in self.classes], "top": "K0"}
+        out = {"enums": enums, "classes": [strip(c) for c in self.classes], "top": "K0"}
+        if frozen:
+            out["frozen"] = frozen
+        return out
